@@ -386,7 +386,13 @@ def dt_value(lex):
     frac = (m.group(2) or "")
     if frac:
         frac = "." + (frac[1:] + "000000")[:6]
-    d = datetime.datetime.fromisoformat(m.group(1) + frac + (m.group(3) or ""))
+    body = m.group(1)
+    next_day = False
+    if body.endswith("T24:00:00") and not frac.strip(".0"):
+        body, next_day = body[:-8] + "00:00:00", True      # XML Schema: hour 24 is midnight of the following day
+    d = datetime.datetime.fromisoformat(body + frac + (m.group(3) or ""))
+    if next_day:
+        d += datetime.timedelta(days=1)
     off = d.utcoffset()
     return ("dt", d.replace(tzinfo=None).isoformat(), None if off is None else int(off.total_seconds()))
 
